@@ -65,4 +65,17 @@ def rmwDecode (prev : List Nat) : Except Fault (Option (List Nat)) :=
     let b ← goSlice prev 0 8
     pure (some b)
 
+/-- `escapeUTF`: `conv[c>>4]`, `conv[c&0xF]` into the 16-character table, for a byte `c` -/
+def escapeNibbles (conv : List Nat) (c : Nat) : Except Fault (Nat × Nat) := do
+  let h ← goIndex conv ((c / 16 : Nat) : Int)
+  let l ← goIndex conv ((c % 16 : Nat) : Int)
+  pure (h, l)
+
+/-- `chunkBuilder.add`: `cb.chunks[len(cb.chunks)-1]` under `if len(cb.chunks) > 0` -/
+def lastChunk {α} (chunks : List α) : Except Fault (Option α) :=
+  if chunks.length > 0 then do
+    let c ← goIndex chunks ((chunks.length : Int) - 1)
+    pure (some c)
+  else pure none
+
 end Emu.Bt.GoOps
